@@ -372,7 +372,7 @@ pub struct EntriesIter {
     iters: Vec<EntryIter>,
 
     // Stack of deferred directories to return after their contents
-    deferred: Vec<VfsEntry>,
+    deferred: Vec<(usize, VfsEntry)>,
 
     // Optional filter that yields only entries that match the predicate
     #[allow(clippy::type_complexity)]
@@ -424,17 +424,17 @@ impl EntriesIter {
             return None;
         }
 
-        // Defer directories as directed
-        if entry.is_dir() && self.opts.contents_first {
-            self.deferred.push(entry);
-            return None;
-        }
-
         // Filter as directed
         if let Some(filter) = &mut self.filter {
             if !(filter)(&entry) {
                 return None;
             }
+        }
+
+        // Defer directories as directed
+        if entry.is_dir() && self.opts.contents_first {
+            self.deferred.push((depth, entry));
+            return None;
         }
 
         Some(Ok(entry))
@@ -485,9 +485,9 @@ impl Iterator for EntriesIter {
         // Loop here to ensure that we get the next entry when filtering or deferring
         while !self.iters.is_empty() {
             // Return deferred directories if we've already processed their children
-            if self.opts.contents_first && self.iters.len() < self.deferred.len() {
+            if self.opts.contents_first && self.deferred.last().map(|x| self.iters.len() <= x.0).unwrap_or(false) {
                 if let Some(entry) = self.deferred.pop() {
-                    return Some(Ok(entry));
+                    return Some(Ok(entry.1));
                 }
             }
 
@@ -510,9 +510,9 @@ impl Iterator for EntriesIter {
         }
 
         // Return root directory for deferred case
-        if self.opts.contents_first && self.iters.len() < self.deferred.len() {
+        if self.opts.contents_first {
             if let Some(entry) = self.deferred.pop() {
-                return Some(Ok(entry));
+                return Some(Ok(entry.1));
             }
         }
 
